@@ -216,10 +216,29 @@ func runCase(c protox.Case) (res protox.Result) {
 		}
 		w.PsExpected = 1
 		sess := logic.VerifPsPubSession(w.SM, "s")
-		for _, it := range items(in) {
-			it := it
-			if err = guard(w, func() { gb28181.VerifFeed(sess, it) }); err != nil {
-				break
+		if d.Stage == "rounds" {
+			// the datagrams are a pattern; it is repeated 1100 times (more than the 1024-packet reorder
+			// window) with the sequence numbers advanced by the pattern length per round
+			pat := items(in)
+			err = guard(w, func() {
+				for round := 0; round < 1100; round++ {
+					for _, it := range pat {
+						b := append([]byte{}, it...)
+						if len(b) >= 4 {
+							sq := uint16(b[2])<<8 | uint16(b[3])
+							sq += uint16(round * len(pat))
+							b[2], b[3] = byte(sq>>8), byte(sq)
+						}
+						gb28181.VerifFeed(sess, b)
+					}
+				}
+			})
+		} else {
+			for _, it := range items(in) {
+				it := it
+				if err = guard(w, func() { gb28181.VerifFeed(sess, it) }); err != nil {
+					break
+				}
 			}
 		}
 		if err == nil {
